@@ -5,12 +5,27 @@ ones regenerated from the current `delete.go` (`countKeep`, `rewriteKeepLocal`: 
 a `LocalBackend`). -/
 open Arc.Proto Arc.C10
 
+/-- blanks inside string cells travel as ^_ (space) ^t ^n, ^^ = ^ -/
+def unescWS : List Char → List Char
+  | '^' :: '_' :: r => ' ' :: unescWS r
+  | '^' :: 't' :: r => '\t' :: unescWS r
+  | '^' :: 'n' :: r => '\n' :: unescWS r
+  | '^' :: '^' :: r => '^' :: unescWS r
+  | c :: r => c :: unescWS r
+  | [] => []
+
+def escWS : List Char → List Char
+  | [] => []
+  | c :: r =>
+    (if c = '^' then ['^', '^'] else if c = ' ' then ['^', '_'] else if c = '\t' then ['^', 't']
+     else if c = '\n' then ['^', 'n'] else [c]) ++ escWS r
+
 def parseCell (s : String) : Option Cell :=
   if s == "~" then some .null else
   match s.toList with
   | k :: ':' :: rest =>
     let body := String.ofList rest
-    if k = 's' then some (.str rest)
+    if k = 's' then some (.str (unescWS rest))
     else match body.toInt? with
       | none => none
       | some n =>
@@ -87,7 +102,7 @@ def encCell : Cell → String
   | .null => "~"
   | .int v => s!"i:{v}"
   | .flt q => s!"f:{q}"
-  | .str s => "s:" ++ String.ofList s
+  | .str s => "s:" ++ String.ofList (escWS s)
   | .bool b => if b then "b:1" else "b:0"
   | .ts us => s!"t:{us}"
 
@@ -124,6 +139,9 @@ def stepC10 (ds : Dataset) (fs : List String) : Dataset × String :=
     | some rs => (insertFile { path := path, rows := rs } ds, s!"ok rows={rs.length}")
     | none => (ds, "bad-op")
   | ["dump"] => (ds, dumpStr ds)
+  -- an unreadable *.parquet file in the measurement: not a data file; the handler skips it (per-file
+  -- fallback scan) and the healthy files behave as if it were not there
+  | ["junk", _path, _kind] => (ds, "ok")
   | "del" :: dry :: confirm :: mx :: thr :: ptoks =>
     match int? mx, int? thr, parsePred (ptoks.length + 1) ptoks with
     | some mx, some thr, some (p, []) =>
